@@ -41,4 +41,4 @@ Proof.
                 end
             end; frame_cbn);
     try reflexivity; try (split; reflexivity).
-Show. Qed.
+Qed.
